@@ -96,7 +96,13 @@ func (vc *VC) loadAt(st *State, addr Term, t types.Type) (Term, error) {
 		return Term{}, err
 	}
 	v = vc.Define("ld", v)
-	st.assume(vc.rangeAssumption(v, t, st.alloc))
+	bound := st.alloc
+	if !vc.tt.isAggregate(t) {
+		if srt, err := vc.tt.SortOf(t); err == nil {
+			bound = vc.heapBound(st, srt)
+		}
+	}
+	st.assume(vc.rangeAssumption(v, t, bound))
 	return v, nil
 }
 
@@ -222,6 +228,7 @@ func (vc *VC) zeroFill(st *State, base Term, t types.Type) error {
 		q := Term{"q!r", SRef}
 		nh := vc.LambdaHeap("hz", s, Ite(Eq(Rid(q), Rid(base)), z, Select(old, q)))
 		st.heaps[s] = nh
+		st.touch(s)
 		vc.heapReg[s] = true
 	}
 	return nil
